@@ -63,6 +63,18 @@ def rand_terms(rng, vs, kind, n):
             lin[v0] = lin[v0] * 2
         pos = rng.randint(0, len(ts))
         ts.insert(pos, (lin, c))
+    if vs and rng.random() < 0.15:
+        # an opposite pair whose SMALL constants are close in absolute terms (<= 9e-6 apart) but not relatively (>= 4e-3):
+        # they print differently within four digits and must not be folded
+        c0, c1 = rng.choice([(F(2, 10 ** 4), F(205, 10 ** 6)), (F(125, 10 ** 5), F(1255, 10 ** 6)), (F(5, 10 ** 4), F(508, 10 ** 6)),
+                             (F(1, 10 ** 3), F(1009, 10 ** 6))])
+        k = rng.randint(1, min(2, len(vs)))
+        lin = {v: rand_num(rng, "int") for v in rng.sample(vs, k)}
+        sgn = rng.choice([1, -1])
+        second = -sgn * c1 if rng.random() < 0.5 else sgn * c1
+        pos = rng.randint(0, len(ts))
+        ts.insert(pos, (lin, sgn * c0))
+        ts.insert(rng.randint(pos + 1, len(ts)), ({v: -a for v, a in lin.items()}, second))
     return ts
 
 
